@@ -1675,9 +1675,32 @@ _NCPU = os.cpu_count() or 1
 _SLACK_ENV = os.environ.get("QVERIF_TIMEOUT_SLACK")
 
 
+_SPEED = [None]
+
+
+def _speed_factor():
+    """How much slower than the reference machine this process runs right now (CPU contention that the load average of
+    a virtual machine does not show): a fixed 40 ms benchmark, measured once per process."""
+    if _SPEED[0] is None:
+        t = time.perf_counter()
+        acc = 0
+        for i in range(300000):
+            acc += i * i % 7
+        x, y = z3.Reals("bench_x bench_y")
+        sv = z3.Solver()
+        sv.add(x * x + y * y == 25, x * y == 12, x > 0, y > x)
+        sv.check()
+        _SPEED[0] = max(1.0, min(6.0, (time.perf_counter() - t) / 0.045))
+    return _SPEED[0]
+
+
 def slack():
     if _SLACK_ENV:
         return float(_SLACK_ENV)
+    return max(_load_factor(), _speed_factor())
+
+
+def _load_factor():
     try:
         with open("/proc/loadavg") as fh:
             f = fh.read().split()
